@@ -10,10 +10,16 @@ Reading guide
   `Ev.step own st`              a construction step of the program P (`own = true`) or of other work H
   `Ev.query ctx joined ident`   P normalises the identifier `ident` against an expression whose CTE chain is `ctx`
   `Ev.readView n`               a `session.sql` statement of P is qualified against the catalog's columns of view `n`
+  `Ev.readSql srcs cols`        a `session.sql` statement of P over the sources `srcs` whose unqualified columns `cols` sqlglot's
+                                `qualify` attributes to a source, given the catalog's column lists and `infer_schema`
   `outs σ I`                    everything P observes of the session along the interleaving `I`, in order
   `onlyOwn I`                   the same program in a session that did nothing else
+  `CEv.apply own path refs ctx joined`   a statement hands identifiers — of Column objects the user holds (`Ref.held`) or of
+                                Columns built for the call — to `normalize` on one of the two paths
+  `outsC cp σ h I`              P's observations along a history over the heap `h` of held Column objects
 -/
 import SqlframeModel.Lemmas.C18
+import SqlframeModel.Lemmas.C18Columns
 namespace Sqlframe
 open Sqlframe.Sess Sqlframe.Gen
 
@@ -29,6 +35,23 @@ theorem C18_gen_decisions :
     sessAliasOrder = .latestFirst ∧ sessIdOrder = .latestFirst ∧
     sessHashParts = [.sqlText] ∧ sessLiteralOnlyOnClash = true ∧
     sessSchemaViaView = true ∧ sessSchemaViewTemporary = true ∧ sessCounterStart = 1 ∧ sessCounterStep = 1 := by decide
+
+/-- both paths into `normalize` hand it a deep copy of the caller's Column -/
+theorem C18_normalize_copies : ∀ p : NormPath, pathCopies p = true := by
+  intro p; cases p <;> decide
+
+/-- no method of BaseDataFrame edits `self.expression` in place, and `session.read`, `df.write`, `df.na`,
+    `df.stat` hand out a new object at every access -/
+theorem C18_sites_fresh : ∀ s : Site, siteInPlace s = false := by
+  intro s
+  cases s with
+  | builder m =>
+    have h : sessInPlaceBuilderMethods = [] := by decide
+    simp [siteInPlace, h]
+  | accessor a => cases a <;> decide
+
+/-- the `infer_schema` argument of `session.sql`'s qualify step is the same in every session state -/
+theorem C18_sql_infer_stateless : sqlInferConst = true := by decide
 
 /-! ### alias resolution is scoped -/
 
@@ -53,15 +76,77 @@ theorem C18_ident_scope (X : List Id) (σ σ' : Session) (hag : AgreeOff X σ σ
     qualified against) is what it observes when the session does nothing else.  Hypotheses:
     `H_idsFresh` — no id drawn by H occurs among P's identifiers or in P's CTE chains (uuid4 freshness; user
     names are not of the generated shape); `H_viewsOwn` — P reads no view name that H registers;
+    `H_tableLookupsOwn` — P's `session.sql` statements read no permanent table whose columns a lookup of H
+    (`session.table`) made the catalog cache (a confirmed defect: see `C18_cex_tableLookups`);
     `H_ctesHaveIds` — every CTE of the expressions P normalises against carries ids (none comes from the
-    text of a `session.sql` statement), or the lookups skip CTEs without ids (`Gen.sessLookupTotal`). -/
+    text of a `session.sql` statement), or the lookups skip CTEs without ids (`Gen.sessLookupTotal`).
+    The `infer_schema` argument of `session.sql` is the same in every session (`C18_sql_infer_stateless`,
+    regenerated). -/
 theorem C18_history (σ₀ : Session) (I : List Ev)
     (H_idsFresh : idsFresh I (foreignIds I) = true)
     (H_viewsOwn : viewsOwn I (foreignViews I) = true)
+    (H_tableLookupsOwn : viewsOwn I (foreignLookups I) = true)
     (H_ctesHaveIds : ctesHaveIds I = true) :
     outs σ₀ I = outs σ₀ (onlyOwn I) :=
-  outs_interleaved (foreignIds I) (foreignViews I) I σ₀ σ₀ (agree_refl _ σ₀) (fun _ _ => rfl)
-    (fun _ h => h) (fun _ h => h) H_idsFresh H_viewsOwn H_ctesHaveIds
+  outs_interleaved (foreignIds I) (foreignViews I ++ foreignLookups I) I σ₀ σ₀ (agree_refl _ σ₀) (fun _ _ => rfl)
+    (fun _ h => h) (foreignCat_sub I) H_idsFresh (viewsOwn_append I _ _ H_viewsOwn H_tableLookupsOwn) H_ctesHaveIds
+    (Or.inl C18_sql_infer_stateless)
+
+/-- **C18_sql_qualify_scope.**  What `session.sql` makes of a statement's unqualified columns depends only on
+    the catalog's column lists for the statement's own sources: two sessions that agree on those — whatever
+    else they registered, looked up, or hold as temp views — attribute every column to the same source. -/
+theorem C18_sql_qualify_scope (σ σ' : Session) (srcs : List (Name × Name)) (cols : List Name)
+    (h : ∀ s ∈ srcs, colsOf σ.catalogCols s.2 = colsOf σ'.catalogCols s.2) :
+    resolveSql σ srcs cols = resolveSql σ' srcs cols := by
+  have hs : sourceCols σ srcs = sourceCols σ' srcs := by
+    unfold sourceCols
+    apply List.map_congr_left
+    intro s hs
+    rw [h s hs]
+  unfold resolveSql
+  rw [sqlInfer_const C18_sql_infer_stateless σ σ', hs]
+
+/-- a statement over one source never leaves a column unattributed while `infer_schema` is on and the
+    catalog does not know the source: that is why `SELECT c FROM t` works in every history -/
+theorem C18_sql_single_source (σ : Session) (a t c : Name) (h : colsOf σ.catalogCols t = none) :
+    resolveSql σ [(a, t)] [c] = [some a] := by
+  have hi : sqlInfer σ = true := by
+    have := sqlInfer_const C18_sql_infer_stateless σ Session.fresh
+    rw [this]; decide
+  simp [resolveSql, sourceCols, h, resolveCol, occurrences, withoutSchema, hi]
+
+/-! ### Column objects the user holds -/
+
+/-- **C18_columns_immutable.**  No history — whatever P and the other work apply their Column objects to, on
+    either path, whatever siblings they derive from a DataFrame that is kept, whatever they set on a reader /
+    writer / na / stat object they were handed — changes an object that outlives the statement: a Column or
+    DataFrame the user holds, the state of the object an accessor hands out next. -/
+theorem C18_columns_immutable (σ : Session) (h : Heap) (I : List CEv) : heapAfter Copying.real σ h I = h := by
+  unfold heapAfter
+  rw [runC_copy Copying.real C18_normalize_copies C18_sites_fresh h I σ]
+
+/-- **C18_history_columns.**  `C18_history` for programs that share objects with the other work — Column objects,
+    DataFrames both derive siblings from, the session's reader: along every interleaving, P's identifiers after
+    normalisation (those of the held objects included), the state of every kept object P uses, and the catalog
+    columns / column attributions of its statements are what they are alone.  The hypotheses are those
+    of `C18_history`, read on the history in which P's applications are spelled out as queries. -/
+theorem C18_history_columns (σ₀ : Session) (h : Heap) (I : List CEv)
+    (H_idsFresh : idsFresh (lower h I) (foreignIds (lower h I)) = true)
+    (H_viewsOwn : viewsOwn (lower h I) (foreignViews (lower h I)) = true)
+    (H_tableLookupsOwn : viewsOwn (lower h I) (foreignLookups (lower h I)) = true)
+    (H_ctesHaveIds : ctesHaveIds (lower h I) = true) :
+    outsC Copying.real σ₀ h I = outsC Copying.real σ₀ h (onlyOwnC I) := by
+  unfold outsC
+  rw [runC_copy Copying.real C18_normalize_copies C18_sites_fresh h I σ₀,
+    runC_copy Copying.real C18_normalize_copies C18_sites_fresh h (onlyOwnC I) σ₀, lower_onlyOwnC]
+  exact C18_history σ₀ (lower h I) H_idsFresh H_viewsOwn H_tableLookupsOwn H_ctesHaveIds
+
+/-- **C18_first_use_same.**  Even a path that does *not* copy yields, at the first use, the identifiers the
+    copying path yields (no identifier is handed over twice in one call): single-pipeline tests cannot tell
+    the two apart — only a second use of the object can. -/
+theorem C18_first_use_same (σ : Session) (ctx : List CteO) (j : List Name) (refs : List Ref) (h : Heap)
+    (hnd : refs.Nodup) : (normInPlace σ ctx j h refs).1 = normOnCopy σ ctx j h refs :=
+  normInPlace_obs σ ctx j refs h hnd
 
 /-- removing the actions that raise from a history changes nothing -/
 def dropFailed : List Ev → List Ev
@@ -84,6 +169,8 @@ theorem C18_failed_action_no_state (I : List Ev) : ∀ σ : Session,
       all_goals (split <;> exact ih _)
     | query ctx j ident => simp only [dropFailed, outs, finalSession, (ih σ).1, (ih σ).2]; exact ⟨trivial, trivial⟩
     | readView n => simp only [dropFailed, outs, finalSession, (ih σ).1, (ih σ).2]; exact ⟨trivial, trivial⟩
+    | readSql srcs cols => simp only [dropFailed, outs, finalSession, (ih σ).1, (ih σ).2]; exact ⟨trivial, trivial⟩
+    | observe ts => simp only [dropFailed, outs, finalSession, (ih σ).1, (ih σ).2]; exact ⟨trivial, trivial⟩
 
 /-- **C18_readonly_no_objects.**  Every sequence of read-only steps — DataFrame construction, aliases,
     transformations, `collect` / `count` / `show` / `columns`, schema lookups, actions that raise — leaves
@@ -154,6 +241,41 @@ example : idsFresh I (foreignIds I) = true ∧ viewsOwn I (foreignViews I) = tru
 example : (runSteps Session.fresh [.create "b" "s", .alias "x" "s2", .schemaLookup "v", .action, .failedAction]).catalogObjects = [] ∧
     (runSteps Session.fresh [.create "b" "s", .alias "x" "s2", .schemaLookup "v", .action, .failedAction]).engineTemp = ["v"] := by decide
 
+/-- C18_history_columns instance: P and the other work both filter through the held predicate `x.k > …`
+    under the alias name `x`; P's `x` is its own CTE in both runs and the object is unchanged -/
+example :
+    let h : Heap := [["k", "x"]]
+    let I : List CEv :=
+      [ .base (.step false (.create "rb1" "rs1")), .base (.step false (.alias "x" "rs2")),
+        .base (.step true (.create "rb3" "rs3")), .base (.step true (.alias "x" "rs4")),
+        .apply false .single [.held 0 0, .held 0 1] [⟨"t1", some ("rb1", "rs1")⟩, ⟨"t2", some ("rb1", "rs2")⟩] [],
+        .apply true .single [.held 0 0, .held 0 1] [⟨"t3", some ("rb3", "rs3")⟩, ⟨"t4", some ("rb3", "rs4")⟩] [] ]
+    idsFresh (lower h I) (foreignIds (lower h I)) = true ∧ viewsOwn (lower h I) (foreignViews (lower h I)) = true ∧
+    viewsOwn (lower h I) (foreignLookups (lower h I)) = true ∧ ctesHaveIds (lower h I) = true ∧
+    outsC Copying.real Session.fresh h I = [.ident "k", .ident "t4"] ∧ heapAfter Copying.real Session.fresh h I = h := by decide
+
+/-- C18_history_columns instance: other work derives `distinct()` / `where` siblings from the kept DataFrame 0 and
+    reads a file through `session.read.format(…).option(…)`; P then collects the kept DataFrame and reads through
+    `session.read.option("header", …)`: it sees the DataFrame as it was built and only its own reader settings -/
+example :
+    let h : Heap := [["where"], []]
+    let I : List CEv :=
+      [ .edit false (.builder "distinct") 0 "distinct" false, .edit false (.builder "where") 0 "where" false,
+        .edit false (.accessor .read) 1 "format=csv" false, .edit false (.accessor .read) 1 "skip=1" false, .use false 1 [],
+        .use true 0 [], .edit true (.accessor .read) 1 "header=true" false, .use true 1 ["header=true"] ]
+    outsC Copying.real Session.fresh h I = [.state ["where"], .state ["header=true"]] ∧
+    outsC Copying.real Session.fresh h (onlyOwnC I) = [.state ["where"], .state ["header=true"]] ∧
+    heapAfter Copying.real Session.fresh h I = h := by decide
+
+/-- C18_sql_qualify_scope / C18_history instance: P's two-source statement after other work registered an
+    unrelated view and looked up an unrelated table -/
+example :
+    let I : List Ev :=
+      [ .step true (.registerView "va" ["k", "s"]), .step false (.registerView "scratch" ["n"]),
+        .step false (.cacheCols "other" ["k", "q"]), .readSql [("va", "va"), ("items", "items")] ["s", "z"] ]
+    viewsOwn I (foreignViews I) = true ∧ viewsOwn I (foreignLookups I) = true ∧
+    outs Session.fresh I = [.resolved [some "va", some "items"]] := by decide
+
 /-! ### counterexamples for the scope hypotheses -/
 
 /-- **H_idsFresh is needed**: if other work had drawn the very sequence id P's alias uses (two equal uuid4
@@ -179,18 +301,77 @@ theorem C18_cex_ctesHaveIds : sessLookupTotal = false →
      ctesHaveIds I = false ∧ outs Session.fresh I = [.raised] ∧ outs Session.fresh (onlyOwn I) = [.ident "k"]) := by
   decide
 
+/-- **H_tableLookupsOwn is needed**: `session.sql` qualifies against whatever columns the catalog happens to
+    have cached.  Alone, P's two-table statement with the unqualified column `z` is rejected (neither table is
+    known, two candidates); after other work merely looked the table `items` up, `z` is attributed to it. -/
+theorem C18_cex_tableLookups :
+    let I : List Ev := [ .step false (.cacheCols "items" ["k", "z"]), .readSql [("items", "items"), ("other", "other")] ["z"] ]
+    viewsOwn I (foreignLookups I) = false ∧
+    outs Session.fresh I = [.resolved [some "items"]] ∧ outs Session.fresh (onlyOwn I) = [.resolved [none]] := by decide
+
+/-- **the copies are needed**: were `normalize` handed the caller's own object on the single-column path
+    (`cp .single = false`), a predicate `x.k > …` that other work applied under its alias `x` would stay bound
+    to that work's CTE: P, applying the same object under *its* alias `x`, no longer gets its own CTE — although
+    every hypothesis of `C18_history_columns` holds — and the held object has changed. -/
+theorem C18_cex_normalizeInPlace :
+    let cp : Copying := ⟨fun p => match p with | .single => false | .multi => true, siteInPlace⟩
+    let h : Heap := [["k", "x"]]
+    let I : List CEv :=
+      [ .base (.step false (.create "rb1" "rs1")), .base (.step false (.alias "x" "rs2")),
+        .base (.step true (.create "rb3" "rs3")), .base (.step true (.alias "x" "rs4")),
+        .apply false .single [.held 0 0, .held 0 1] [⟨"t1", some ("rb1", "rs1")⟩, ⟨"t2", some ("rb1", "rs2")⟩] [],
+        .apply true .single [.held 0 0, .held 0 1] [⟨"t3", some ("rb3", "rs3")⟩, ⟨"t4", some ("rb3", "rs4")⟩] [] ]
+    idsFresh (lower h I) (foreignIds (lower h I)) = true ∧ ctesHaveIds (lower h I) = true ∧
+    outsC cp Session.fresh h I = [.ident "k", .ident "t2"] ∧ outsC cp Session.fresh h (onlyOwnC I) = [.ident "k", .ident "t4"] ∧
+    heapAfter cp Session.fresh h I = [["k", "t2"]] := by decide
+
+/-- **builder calls must copy**: were `distinct` to edit `self.expression` in place, a `distinct()` sibling that other
+    work derives from a kept `where` result (the wrapper does not move a WHERE-level receiver into a new CTE for a
+    SELECT-level operation: not shielded) would turn the kept DataFrame itself into SELECT DISTINCT — P, collecting
+    it afterwards, sees another DataFrame than alone.  After `select` the wrapper shields the receiver and nothing leaks. -/
+theorem C18_cex_builderInPlace :
+    let k : Copying := ⟨pathCopies, fun s => s == .builder "distinct"⟩
+    let h : Heap := [["where"]]
+    outsC k Session.fresh h [.edit false (.builder "distinct") 0 "distinct" false, .use true 0 []] = [.state ["where", "distinct"]] ∧
+    outsC k Session.fresh h (onlyOwnC [.edit false (.builder "distinct") 0 "distinct" false, .use true 0 []]) = [.state ["where"]] ∧
+    outsC k Session.fresh h [.edit false (.builder "distinct") 0 "distinct" true, .use true 0 []] = [.state ["where"]] := by decide
+
+/-- **accessors must hand out new objects**: were `session.read` cached on the session, the `format` / `option`
+    settings of a read chain of other work would still be on the reader P is handed for its own read. -/
+theorem C18_cex_accessorCached :
+    let k : Copying := ⟨pathCopies, fun s => s == .accessor .read⟩
+    let I : List CEv := [ .edit false (.accessor .read) 0 "format=csv" false, .edit false (.accessor .read) 0 "skip=1" false,
+                          .use false 0 [], .use true 0 ["header=true"] ]
+    outsC k Session.fresh [[]] I = [.state ["format=csv", "skip=1", "header=true"]] ∧
+    outsC k Session.fresh [[]] (onlyOwnC I) = [.state ["header=true"]] := by decide
+
+/-- **a state-dependent `infer_schema` breaks it**: were the argument `not self.temp_views`, registering any
+    view — one P never mentions — would make P's single-table statement with an unqualified column unresolvable. -/
+theorem C18_cex_inferDependsOnState :
+    let infer : Session → Bool := fun σ => σ.catalogObjects.isEmpty
+    let σH := applyStep Session.fresh (.registerView "scratch" ["n"])
+    [resolveCol (infer Session.fresh) (sourceCols Session.fresh [("payments", "payments")]) "amount",
+     resolveCol (infer σH) (sourceCols σH [("payments", "payments")]) "amount"] = [some "payments", none] := by decide
+
 /-! ### the full statement -/
 
 /-- C18 at full strength: along every interleaving with any other work whose ids are fresh, P observes what it
     observes alone — also for view names the other work registered *before* P registered them itself
     (`lastOwnBefore`); the rendered text ignores ids; read-only steps leave no catalog-visible object.
-    `C18_history` proves the first part for view names the history does not touch; `C18_cex_viewColumnsStable`
-    shows the remaining case fails for the code as it is (shared root cause with C13 H_reregisterKeepsColumns). -/
+    `C18_history_columns` / `C18_columns_immutable` prove the first part for names the history neither registers
+    nor looks up; `C18_cex_tableLookups` shows that a mere lookup of a table P's statement reads changes the
+    statement's qualification for the code as it is; `C18_cex_viewColumnsStable` is the re-registration case
+    (repaired in the source: `Gen.viewSchemaKeptOnReregister = false`). -/
 def C18_full_statement : Prop :=
-  (∀ (σ₀ : Session) (I : List Ev), idsFresh I (foreignIds I) = true →   -- no H_ctesHaveIds, no H_viewsOwn
-      (∀ pre n post, I = pre ++ .readView n :: post →
+  (∀ (σ₀ : Session) (h : Heap) (I : List CEv),
+      idsFresh (lower h I) (foreignIds (lower h I)) = true →   -- no H_ctesHaveIds, no H_viewsOwn, no H_tableLookupsOwn
+      (∀ pre n post, lower h I = pre ++ .readView n :: post →
         ∃ pre₁ cols pre₂, pre = pre₁ ++ .step true (.registerView n cols) :: pre₂ ∧ n ∉ foreignViews pre₂) →
-      outs σ₀ I = outs σ₀ (onlyOwn I)) ∧
+      -- a statement's sources are P's own views (as above) or names the other work never registers — it may look them up
+      (∀ pre srcs cols post, lower h I = pre ++ .readSql srcs cols :: post → ∀ s ∈ srcs,
+        (∃ pre₁ cs pre₂, pre = pre₁ ++ .step true (.registerView s.2 cs) :: pre₂ ∧ s.2 ∉ foreignViews pre₂) ∨
+        s.2 ∉ foreignViews (lower h I)) →
+      outsC Copying.real σ₀ h I = outsC Copying.real σ₀ h (onlyOwnC I) ∧ heapAfter Copying.real σ₀ h I = h) ∧
   (∀ (H : String → Name) (chain chain' : List TCte), chain.map TCte.eraseIds = chain'.map TCte.eraseIds →
       rehash H sessHashParts chain = rehash H sessHashParts chain') ∧
   (∀ (σ : Session) (steps : List Step), (∀ st ∈ steps, st.readOnly = true) →
